@@ -131,6 +131,10 @@ def check_fit(case, ctx):
     ctx.label('source:' + src['kind'], 'route:' + route)
     T_ref = lo + case['T_ref_u'] * (hi - lo)
     kw = {}
+    # the caller's data arrays (from_data route): handed over as numpy arrays and owned by the caller
+    T_in = np.array(T, dtype=float)
+    Cp_in = np.asarray([model.get_CpoR(T=float(t)) for t in T], dtype=float) if route == 'from_data' else None
+    T_keep, Cp_keep = T_in.copy(), (None if Cp_in is None else Cp_in.copy())
     # ---------------- build the fit ----------------------------------------------
     if fam == 'nasa7':
         from pmutt.empirical.nasa import Nasa
@@ -143,7 +147,7 @@ def check_fit(case, ctx):
                                   elements={'H': 2})
             T_ref = 0.5 * (lo + hi)
         else:
-            obj = Nasa.from_data(name='fit', T=T, CpoR=np.asarray([model.get_CpoR(T=float(t)) for t in T], dtype=float),
+            obj = Nasa.from_data(name='fit', T=T_in, CpoR=Cp_in,
                                  T_ref=T_ref, HoRT_ref=float(model.get_HoRT(T=T_ref)), SoR_ref=float(model.get_SoR(T=T_ref)),
                                  T_mid=T_mid, elements={'H': 2})
         breaks = [float(obj.T_mid)]
@@ -176,7 +180,7 @@ def check_fit(case, ctx):
                     raise
             T_ref = lo
         else:
-            obj = Nasa9.from_data(name='fit', T=T, CpoR=np.asarray([model.get_CpoR(T=float(t)) for t in T], dtype=float),
+            obj = Nasa9.from_data(name='fit', T=T_in, CpoR=Cp_in,
                                   T_ref=T_ref, HoRT_ref=float(model.get_HoRT(T=T_ref)), SoR_ref=float(model.get_SoR(T=T_ref)),
                                   T_mid=T_mid, elements={'H': 2})
         nas = sorted(obj.nasas, key=lambda s: s.T_low)
@@ -194,7 +198,7 @@ def check_fit(case, ctx):
             obj = Shomate.from_model(model=model, name='fit', T_low=lo, T_high=hi, n_T=case['n_T'], units=u, elements={'H': 2})
             T_ref = 0.5 * (lo + hi)
         else:
-            obj = Shomate.from_data(name='fit', T=T, CpoR=np.asarray([model.get_CpoR(T=float(t)) for t in T], dtype=float),
+            obj = Shomate.from_data(name='fit', T=T_in, CpoR=Cp_in,
                                     T_ref=T_ref, HoRT_ref=float(model.get_HoRT(T=T_ref)), SoR_ref=float(model.get_SoR(T=T_ref)),
                                     units=u, elements={'H': 2})
         breaks = []
@@ -202,6 +206,12 @@ def check_fit(case, ctx):
         nseg = 1
         thresh = THRESH['shomate']
     tag = 'C03.%s' % fam
+    if route == 'from_data':
+        # fitting must not consume its input: the arrays are unchanged and a second fit from them is the same fit
+        if not (np.array_equal(T_in, T_keep) and np.array_equal(Cp_in, Cp_keep)):
+            ctx.fail(tag + '/input-arrays-modified', 'max |dT| %.3g, max |dCp/R| %.3g after from_data' % (
+                float(np.max(np.abs(T_in - T_keep))), float(np.max(np.abs(Cp_in - Cp_keep)))))
+            return
     ctx.nontrivial((nseg >= 2 and breaks and T_ref > breaks[0]) or src['kind'] == 'zero' or
                    (fam == 'shomate' and case['units'] != 'J/mol/K'))
 
